@@ -94,6 +94,29 @@ let () =
         let head = List.hd parts and body = List.tl parts in
         let toks = List.filter (fun s -> s <> "") (split_on head " ") in
         let kind_s = List.hd toks in
+        if kind_s = "client" then begin
+          (* a library-internal user of the quadratic table (grammar.Productions): no model; every operation
+             must return, and Get must answer like a map from heads to body sets *)
+          bump "cases_client" 1;
+          let present = Hashtbl.create 64 and opno = ref 0 and evs = ref 0 in
+          let opsig = Buffer.create 256 in
+          List.iter (fun opres ->
+            incr opno; incr nops;
+            let op, res = match split_on opres "->" with
+              | [a; b] -> (trim a, trim b) | [a] -> (trim a, "?") | _ -> (opres, "?") in
+            Buffer.add_string opsig op; Buffer.add_char opsig ';';
+            let f = Array.of_list (List.filter (fun s -> s <> "") (split_on op " ")) in
+            let i = int_of_string f.(1) in
+            let expect = match f.(0) with
+              | "A" -> Hashtbl.replace present i (); "ok"
+              | "R" | "X" -> if Hashtbl.mem present i then incr evs; Hashtbl.remove present i; "ok"
+              | "G" -> if Hashtbl.mem present i then "1" else "0"
+              | _ -> "?" in
+            if res <> "?" && res <> expect then
+              Printf.printf "MISMATCH line=%d op=%d kind=api what=client productions %s: implementation %s, expected %s\n" !lineno !opno op res expect
+          ) body;
+          if !evs >= 1 then Hashtbl.replace nontrivial (0, Digest.string (Buffer.contents opsig)) ()
+        end else
         let kd = match kind_s with "chain" -> Chain | "linear" -> Linear | "quadratic" -> Quadratic | "double" -> Double
                                    | s -> failwith ("bad kind " ^ s) in
         let cap = ref 0 and minlf = ref { lf_num = O; lf_den = S O } and maxlf = ref { lf_num = S O; lf_den = S O } in
